@@ -68,7 +68,7 @@ add("C17", "differential / metamorphic property-based testing (proptest): every 
     "Exploration: ~15 operations x 9 integer types x 2 positions x 4-6 forms executed explicitly per case; a label per impl family proves all were executed; stated exception for multiplication by one honoured.",
     "No reference oracle here (C01-C04/C10 give the absolute values); one open known finding (integer/integer div_rounded with n > 18) excluded by signature.", "5/C17")
 add("C19", "model-based (stateful) property-based testing: generated lock-step schedules over real OS threads against a per-thread mode model, sequences shrink as one value",
-    "Exploration over generated schedules (up to 4 threads x 40 steps): set_default/default/rounding operations executed by real threads in a harness-owned order; every result must match the issuing thread's model mode, new threads start with HalfEven.",
+    "Exploration over generated schedules (up to 4 threads x 40 steps): set_default/default/rounding operations executed by real threads in a harness-owned order; every result must match the issuing thread's model mode, new threads start with HalfEven. Each schedule runs in a fresh process; one in 16 runs in a generated program built against fpdec with default-features = false; thread-exit destructors are probed too.",
     "Sampled interleavings (deterministic lock-step), not exhaustive; timing-dependent races on weak memory are out of reach; trusts the oracle crate.", "5/C19")
 add("C20", "differential fuzzing across builds: the same generated cases are evaluated by driver processes compiled under several profiles / feature sets and compared line by line; the reference build is also compared with the exact oracle",
     "Exploration: ~60 public operations per case over the union of the C01-C06/C10 generators; quick = dev, release, release+packed; thorough = all 8 combinations of {opt 0/3} x {checks on/off} x {packed on/off}.",
